@@ -22,7 +22,7 @@ From SK Require Import lib.Tok lib.LGraph model.C03_Model proof.C03_Spec proof.C
                        proof.C03_Skeleton proof.C03_StripCounts
                        proof.C03_Wiring proof.C03_WiringCount proof.C03_PairIds proof.C03_StripExact proof.C03_StripCor
                        proof.C03_PairIdsComplete proof.C03_Wrap proof.C03_DefaultBalance
-                       proof.C03_DefaultEnd.
+                       proof.C03_DefaultEnd proof.C03_DefaultWiring.
 Import ListNotations.
 Local Open Scope Z_scope.
 
@@ -513,6 +513,23 @@ Theorem C03_default_wiring_template : forall (tpl rc : its) (l r : molg) (host :
   exists (x y h : N), mget m x = Some a /\ mget m y = Some b /\ is_H_i tpl h = true /\ In x (nbrs tpl h) /\ In y (nbrs tpl h).
 Proof. exact default_share_pair_template. Qed.
 Print Assumptions C03_default_wiring_template.
+
+(** clause (c) for the hydrogens END TO END in the default mode ([tpl_group], proof/C03_Spec.v: closure of "bonded to one
+    explicit hydrogen of the template"): every (donor, recipient) pair wired by _explicit_h is the image under the match
+    of two TEMPLATE atoms of one hydrogen-transfer group of the template, the donor with a hydrogen surplus, the recipient
+    with a deficit.  (A literal isomorphism with the template's H atoms does not hold in general — first fit may choose
+    another partner inside the group — which is why the statement, like the oracle clause its-c-wiring, is about groups.) *)
+Theorem C03_default_migrations_in_template_groups :
+  forall (tpl rc : its) (l r : molg) (host : hostg) (m : mapping) (T : its),
+  nodupb (node_ids tpl) = true -> (forall (k : N) (n : inode), In (k, n) (gnodes tpl) -> i_hp n = None) ->
+  synrule tpl true = Some (rc, l, r) ->
+  wf_hostb host = true -> wf_rcb rc = true -> match_rcb host rc m = true -> glue host rc m = Some T ->
+  forall (T' : its) (ms : list (N * N)), explicit_h T = Some (T', ms) ->
+  forall sd : N * N, In sd ms ->
+    exists x y : N, mget m x = Some (fst sd) /\ mget m y = Some (snd sd) /\ tpl_group tpl x y /\
+                    0 < dl_of T (fst sd) /\ dl_of T (snd sd) < 0.
+Proof. exact default_migrations_in_template_groups. Qed.
+Print Assumptions C03_default_migrations_in_template_groups.
 
 (** gluing followed by _explicit_h: a balanced rule still yields a balanced reaction whose reactant side has the
     substrate's element counts and, between substrate atoms, exactly the substrate's bonds *)
